@@ -245,6 +245,7 @@ def apply_reference(repo):
         n += _tail_duplicate(fi.node, ref_locals)
         if n:
             repo.restructured[q] = n
+    repo.reverse_aliases = reverse_attribute_aliases(repo, ref)
     try:
         inl = inline_new_aliases(repo, ref)
     except RecursionError:
@@ -360,6 +361,65 @@ def _replace_child(parent, old, new):
                     v[i] = new
                     return True
     return False
+
+
+def reverse_attribute_aliases(repo, ref):
+    """self.X = L  for a new local L: from there on L and self.X are the same object, so the later reads of L are reads of self.X
+    - as long as neither is bound again: no store to L or to an attribute named X later in the function, and no call after the
+    statement reaches a function that stores an attribute X (call graph).  The mirror image of inline_new_aliases."""
+    done = {}
+    writers = None
+    cg = None
+    for q, fi in repo.funcs.items():
+        if fi.is_lambda or q not in ref:
+            continue
+        ref_locals = {n for n, _ in ref[q]["locals"]} | set(ref[q]["params"])
+        nested = _nested_uses(fi.node)
+        for owner, field, blk in _blocks(fi.node):
+            for i, st in enumerate(blk):
+                if not (isinstance(st, ast.Assign) and len(st.targets) == 1 and isinstance(st.value, ast.Name) and isinstance(st.targets[0], ast.Attribute)):
+                    continue
+                ch = _chain(st.targets[0])
+                L = st.value.id
+                if ch is None or len(ch) != 2 or ch[0] != "self" or L in ref_locals or L in nested or L in fi.params:
+                    continue
+                X = ch[1]
+                later = [x for s_ in blk[i + 1:] for x in ast.walk(s_)]
+                later_ids = {id(x) for x in later}
+                loads = [x for x in later if isinstance(x, ast.Name) and x.id == L and isinstance(x.ctx, ast.Load)]
+                if not loads:
+                    continue
+                # every load of L after the statement is in the rest of this block (none elsewhere that the statement could reach: loops)
+                if any(isinstance(a_, (ast.For, ast.While)) for a_ in _ancestors(st, fi.node)):
+                    continue
+                inside_st = {id(x) for x in ast.walk(st)}
+                all_after = [x for x in walk_own(fi.node) if isinstance(x, ast.Name) and x.id == L and _pos(x) > _pos(st) and id(x) not in inside_st]
+                if any(id(x) not in later_ids for x in all_after):
+                    continue
+                if any(isinstance(x.ctx, (ast.Store, ast.Del)) for x in all_after):
+                    continue
+                if any(isinstance(x, ast.Attribute) and x.attr == X and isinstance(x.ctx, (ast.Store, ast.Del)) for x in later):
+                    continue
+                if any(isinstance(x, ast.Lambda) for x in later if any(y is l_ for l_ in loads for y in ast.walk(x))):
+                    continue
+                if writers is None:
+                    writers = _attr_writers(repo)
+                bad_fns = set(writers.get(X, set())) - {q}
+                calls = [c for c in later if isinstance(c, ast.Call)]
+                if calls and bad_fns:
+                    if cg is None:
+                        from .callgraph import CallGraph
+                        cg = CallGraph(repo)
+                    direct = {e.callee.qual for e in cg.callees(q) if any(e.call is c for c in calls)}
+                    reach = (set(cg.reachable(sorted(direct))) | direct) if direct else set()
+                    if reach & bad_fns:
+                        continue
+                for x in loads:
+                    _install(x, ast.parse("self.%s" % X, mode="eval").body)
+                done.setdefault(q, []).append(L)
+    if done:
+        _clear_analysis_caches()
+    return done
 
 
 def inline_new_aliases(repo, ref):
